@@ -10,6 +10,7 @@ import IpcHub.Lemmas.Registry
 import IpcHub.Lemmas.RegistryRefine
 import IpcHub.Lemmas.RegistryLts
 import IpcHub.Lemmas.CanonPath
+import IpcHub.Lemmas.CanonPathSpell
 namespace IpcHub.Props.C05
 open IpcHub.CanonPath IpcHub.Registry IpcHub.RegistrySpec IpcHub.RegistryLts
 
@@ -133,6 +134,22 @@ theorem c05_canon_shape (p : List Char) :
     canonicalOnce asciiCfg (canonicalPath asciiCfg p) = canonicalPath asciiCfg p ∧
     (canonicalPath asciiCfg p).head? = some '/' :=
   ⟨ascii_canonicalPath_stable p, canonicalPath_head asciiCfg p⟩
+
+/-- **Spellings of the same path.**  Any mixed-case spelling (p and q equal after lower-casing), blanks
+    around the path, an added leading '/', and every '/' doubled all have the same canonical form — so by
+    `c05_newest_wins` they all resolve to the same stream.  (ASCII instance; the generic versions in
+    Lemmas/CanonPathSpell.lean need lower idempotent, '/' not a blank, lower fixing exactly '/', blanks
+    invariant under lower.) -/
+theorem c05_canon_spellings (p q l r : List Char)
+    (hcase : p.map asciiLower = q.map asciiLower)
+    (hl : ∀ c ∈ l, asciiSpace c = true) (hr : ∀ c ∈ r, asciiSpace c = true) :
+    canonicalPath asciiCfg p = canonicalPath asciiCfg q ∧
+    canonicalPath asciiCfg (p.map asciiUpper) = canonicalPath asciiCfg p ∧
+    canonicalPath asciiCfg (l ++ p ++ r) = canonicalPath asciiCfg p ∧
+    canonicalPath asciiCfg ('/' :: trim asciiSpace p) = canonicalPath asciiCfg p ∧
+    canonicalPath asciiCfg (doubleSlashes p) = canonicalPath asciiCfg p :=
+  ⟨ascii_canonicalPath_case hcase, ascii_canonicalPath_map_upper p, ascii_canonicalPath_surround l p r hl hr,
+   canonicalPath_cons_slash_trim asciiCfg_HMin p, ascii_canonicalPath_doubleSlashes p⟩
 
 /-- hence a registered live stream is found under the path it reports (`Get(s.Path()) == s`):
     registering stream i created under spelling p, then looking up its own stored path -/
@@ -304,6 +321,10 @@ example :
 
 /-- `c05_two_racers_one_registered`: its hypothesis holds for a real schedule -/
 example : allDone (runSched true (initC cexSt cexOps) pauseSchedule) = true := by decide
+
+/-- `c05_canon_spellings`: its hypotheses are met by a mixed-case pair and blank paddings -/
+example : ['/', 'L', 'i', 'v', 'e'].map asciiLower = ['/', 'l', 'I', 'V', 'E'].map asciiLower ∧
+    (∀ c ∈ [' ', '\t'], asciiSpace c = true) := by decide
 
 /-- `c05_newest_wins`: two different spellings with the same canonical form -/
 example : canonicalPath asciiCfg [' ', 'A', '/', '/', 'b', '/', '.'] = canonicalPath asciiCfg ['/', 'a', '/', 'B'] := by decide
